@@ -577,6 +577,8 @@ impl Handler {
         } else {
             // Either the session is being established or has expired. We simply drop the
             // response in this case.
+            #[cfg(feature = "verif-hooks")]
+            crate::verif::hit("handler.response_dropped_no_session");
             return warn!(
                 %response,
                 node = %node_address.node_id,
